@@ -273,9 +273,11 @@ func (t *taskManager) executor(currentTask *task) {
 			currentTask.output = nil
 			currentTask.err = safe.NewPanicErr(panicInfo, debug.Stack())
 		}
+		verifC03Yield()
 		t.mu.Lock()
 		t.l.PushBack(currentTask)
 		t.updateChan()
+		verifC03Finish(t, currentTask)
 		t.mu.Unlock()
 	}()
 
@@ -304,6 +306,7 @@ func (t *taskManager) submit(tasks []*task) error {
 		syncTask = tasks[0]
 		tasks = tasks[1:]
 	}
+	verifC03Submit(t, syncTask, tasks)
 	for _, currentTask := range tasks {
 		t.num += 1
 		go t.executor(currentTask)
@@ -332,8 +335,10 @@ func (t *taskManager) waitOne() (*task, bool) {
 	}
 	t.num--
 	ta := <-t.done
+	verifC03Recv(t, ta)
 	t.mu.Lock()
 	t.updateChan()
+	verifC03Refill(t)
 	t.mu.Unlock()
 
 	if ta.err != nil {
